@@ -287,3 +287,57 @@ def _eval_with_ceil(tree, N):
             return {'int': int, 'ceil': math.ceil, 'float': float, 'abs': abs}[call_name(n)](v)
         raise AnalysisError('expression %s' % norm(n))
     return ev(tree)
+
+
+# ---------------------------------------------------------------------------
+def nonetest_rule(run, fi, tables, rule='NONETEST'):
+    """a real-valued field read from a record must be tested for absence with `is None`; a truthiness test
+    (`if x:`, `not x`, `x and y`) also fires for a legitimate 0.0 in the file."""
+    from ..fmap import find_destructure
+    n = 0
+    for blk in _all_blocks(fi.node):
+        for st in blk:
+            if not (isinstance(st, ast.Assign) and isinstance(st.value, ast.Call) and call_name(st.value) in ('parse_string', 'read_values')):
+                continue
+            c = st.value
+            k = const_str(c.args[1] if call_name(c) == 'parse_string' else c.args[0])
+            spec = None
+            for tab in tables:
+                if k in tab: spec = tab[k]
+            if spec is None or not isinstance(st.targets[0], (ast.List, ast.Tuple)): continue
+            floats = {}
+            for t, fmt in zip(st.targets[0].elts, spec[1]):
+                if isinstance(t, ast.Name) and fmt[-1] in 'efg': floats[t.id] = fmt
+            if not floats: continue
+            n += 1
+            bad = []
+
+            def truthy(e):
+                """names used directly as a truth value inside expression e"""
+                if isinstance(e, ast.Name) and e.id in floats: return [e]
+                if isinstance(e, ast.UnaryOp) and isinstance(e.op, ast.Not): return truthy(e.operand)
+                if isinstance(e, ast.BoolOp): return [x for v in e.values for x in truthy(v)]
+                return []
+            for x in ast.walk(fi.node):
+                tests = []
+                if isinstance(x, (ast.If, ast.While, ast.IfExp)): tests.append(x.test)
+                for t in tests:
+                    for nm in truthy(t):
+                        if nm.lineno >= st.lineno: bad.append((nm, x))
+            key = '%s :: %s real fields tested for absence with `is None`' % (fi.short, k)
+            if bad:
+                nm, x = bad[0]
+                run.violated(key, 'the real field `%s` (%s) is used as a truth value in `%s`: a value of exactly 0.0 in the file is '
+                             'treated like a blank field' % (nm.id, floats[nm.id], norm(x.test)), where=fi.where(nm), rule=rule)
+            else:
+                run.ok(key, sorted(floats), where=fi.where(st), rule=rule)
+    return n
+
+
+def _all_blocks(fnode):
+    out = []
+    for n in ast.walk(fnode):
+        for f in ('body', 'orelse', 'finalbody'):
+            b = getattr(n, f, None)
+            if isinstance(b, list) and b and isinstance(b[0], ast.stmt): out.append(b)
+    return out
